@@ -23,11 +23,12 @@ Accept(ver, p, key, confAlg, confVer) ==
     /\ ver = confVer
     /\ p.c["outerHdr"] = 0 /\ p.c["macTlvHdr"] = 0               \* structure still parses: lengths tile, tags are the expected ones
     /\ p.hasHeader /\ p.hasMac
+    /\ (ver = 1 => ~p.extra)                                      \* v1: the MAC covers the header and ONE payload: a PDU with a second payload element has content no MAC covers
     /\ p.macAlgId = confAlg /\ p.c["macAlg"] = 0
     /\ p.digest = Mac(key, confAlg, Covered(ver, p))
 
 Orig(ver, key, alg) == LET c0 == [r \in {"outerHdr", "header", "payload", "macTlvHdr", "macAlg", "digest"} |-> 0]
-                           p0 == [c |-> c0, hasHeader |-> TRUE, hasMac |-> TRUE, macAlgId |-> alg, digest |-> <<>>]
+                           p0 == [c |-> c0, hasHeader |-> TRUE, hasMac |-> TRUE, extra |-> FALSE, macAlgId |-> alg, digest |-> <<>>]
                        IN [p0 EXCEPT !.digest = Mac(key, alg, Covered(ver, p0))]
 (* flipping a bit inside region r: the region's bytes change; if r is the digest, the digest value changes *)
 Flip(p, r) == IF r = "digest" THEN [p EXCEPT !.digest = <<"flipped", @>>] ELSE [p EXCEPT !.c[r] = 1]
@@ -47,7 +48,9 @@ ASSUME OutsideMac(2) = {} /\ OutsideMac(1) = {"outerHdr", "macTlvHdr", "macAlg"}
 
 (* deviations a received PDU can have from the authentic one *)
 AllRegions == {"outerHdr", "header", "payload", "macTlvHdr", "macAlg", "digest"}
-Deviations == {[d |-> x, r |-> "-"] : x \in {"none", "otherkey", "otheralg", "otherver", "nomac", "nohdr"}} \cup {[d |-> "flip", r |-> r] : r \in AllRegions}
+(* splice (v1): header, payload and MAC are the genuine ones of SOME authentic PDU under the key -- e.g. the client's own request, reflected -- *)
+(* and a second, forged payload element is added next to them                                                                              *)
+Deviations == {[d |-> x, r |-> "-"] : x \in {"none", "otherkey", "otheralg", "otherver", "nomac", "nohdr", "splice"}} \cup {[d |-> "flip", r |-> r] : r \in AllRegions}
 Other(alg) == IF alg = 1 THEN 5 ELSE 1
 Received(ver, alg, dev) ==
     CASE dev.d = "none"     -> [ver |-> ver, p |-> Orig(ver, "k", alg)]
@@ -56,6 +59,8 @@ Received(ver, alg, dev) ==
       [] dev.d = "otherver" -> [ver |-> 3 - ver, p |-> Orig(3 - ver, "k", alg)]
       [] dev.d = "nomac"    -> [ver |-> ver, p |-> [Orig(ver, "k", alg) EXCEPT !.hasMac = FALSE]]
       [] dev.d = "nohdr"    -> [ver |-> ver, p |-> [Orig(ver, "k", alg) EXCEPT !.hasHeader = FALSE]]
+      [] dev.d = "splice"   -> [ver |-> ver, p |-> [Orig(ver, "k", alg) EXCEPT !.extra = TRUE]]
       [] dev.d = "flip"     -> [ver |-> ver, p |-> Flip(Orig(ver, "k", alg), dev.r)]
 Delivered(confVer, confAlg, dev) == LET m == Received(confVer, confAlg, dev) IN Accept(m.ver, m.p, "k", confAlg, confVer)
+ASSUME ~Delivered(1, 1, [d |-> "splice", r |-> "-"])
 =============================================================================
